@@ -134,7 +134,7 @@ type c35Event struct {
 	BadSig bool         `json:"badsig,omitempty"` // corrupt one judgement signature
 }
 
-var c35Modes = []string{"matching", "missing", "surplus-valid", "stray-culprit", "agreeing-fault", "culprits-reversed"}
+var c35Modes = []string{"matching", "missing", "surplus-valid", "stray-culprit", "agreeing-fault", "culprits-reversed", "culprit-also-fault", "culprit-also-fault-on-other-verdict"}
 
 type c35Case struct {
 	History []c35Event `json:"history"`
@@ -196,6 +196,30 @@ func c35Extrinsic(e c35Event) types.DisputesExtrinsic {
 		k := c35FaultKeys[t][slot]
 		d.Faults = append(d.Faults, types.Fault{Target: w.target[t], Vote: vote, Key: w.pub[k], Signature: w.sign(k, c35Ctx(vote), t)})
 	}
+	addFK := func(t, k int, vote bool) {
+		d.Faults = append(d.Faults, types.Fault{Target: w.target[t], Vote: vote, Key: w.pub[k], Signature: w.sign(k, c35Ctx(vote), t)})
+	}
+	// the same validator key in two roles of one extrinsic (legal: psi_o' is a set union)
+	firstBad := -1
+	for _, v := range e.V {
+		if c35Class(v.P) == "bad" && firstBad < 0 {
+			firstBad = v.T
+		}
+	}
+	for _, v := range e.V {
+		switch c35Class(v.P) {
+		case "bad":
+			if e.Mode == 6 {
+				// its first culprit also judged it valid: culprit and (valid) fault on the same report
+				addFK(v.T, c35CulpritKeys[v.T][0], true)
+			}
+		case "good":
+			if e.Mode == 7 && firstBad >= 0 {
+				// the first culprit of the bad report is the one who judged this good report invalid
+				addFK(v.T, c35CulpritKeys[firstBad][0], false)
+			}
+		}
+	}
 	for _, v := range e.V {
 		switch c35Class(v.P) {
 		case "bad":
@@ -208,7 +232,7 @@ func c35Extrinsic(e c35Event) types.DisputesExtrinsic {
 				addF(v.T, 0, true)
 			}
 		case "good":
-			if e.Mode != 1 {
+			if e.Mode != 1 && !(e.Mode == 7 && firstBad >= 0) {
 				addF(v.T, 0, false)
 			}
 			if e.Mode == 2 {
@@ -292,7 +316,7 @@ func c35Events(thorough bool) []c35Event {
 	seen := map[string]bool{}
 	for _, l := range lists {
 		for m := range c35Modes {
-			if len(l) == 2 && m >= 3 && !thorough {
+			if len(l) == 2 && m >= 3 && m < 6 && !thorough {
 				continue // two-verdict blocks: matching / missing / surplus only (quick)
 			}
 			e := c35Event{V: l, Mode: m}
